@@ -235,8 +235,11 @@ fn generate_global_branch(
                 cachelito_core::InvalidationRegistry::global().register_invalidation_callback(
                     #fn_name_str,
                     move |check_fn: &dyn Fn(&str) -> bool| {
-                        let mut map_write = #cache_ident.write();
+                        // Lock order: order queue first, then the map, as every cache
+                        // operation does (taking them the other way round can deadlock
+                        // against a concurrent insert that is evicting).
                         let mut order_write = #order_ident.lock();
+                        let mut map_write = #cache_ident.write();
 
                         // Collect keys to remove based on check function
                         let keys_to_remove: Vec<String> = map_write
